@@ -29,7 +29,14 @@ def main(tier):
     trees = []
     for k in range(n):
         cfg = dd.gen_config(rng)
-        files = dd.gen_group(rng, cfg)
+        # now and then a group far larger than the thresholds at which library sorts change their algorithm: many replicas, each its own
+        # sub-group, ranked by a time with three values only (ties everywhere), -n cutting inside a tie class
+        if k % 60 == 30:
+            cfg.update({"isolate": False, "cliRoots": False, "patterns": "none", "cliN": rng.choice([3, 7, 12, 20]), "rf_over": None,
+                        "prios": [rng.choice([p_ for p_ in dd.PRIOS if "modified" in p_ or "accessed" in p_ or p_ in ("newest", "oldest")])]})
+            files = dd.gen_group(rng, cfg, k=rng.choice([24, 40, 56]), distinct=True)
+        else:
+            files = dd.gen_group(rng, cfg)
         trees.append((k, files, cfg, rng.randint(0, 1 << 30)))
 
     def prepare(t):
